@@ -25,3 +25,25 @@ Definition run_enc (inp : list Z) : list Z :=
   | Panic w => [1; w]
   | OutOfFuel => [2]
   end.
+
+(* entry `edit` (C03): field id, length-prefixed value, then the text.
+   decode, set the field, encode. *)
+From RM Require Import Model.Edit.
+
+Definition run_edit (inp : list Z) : list Z :=
+  match inp with
+  | id :: vlen :: rest =>
+      let v := firstn (Z.to_nat vlen) rest in
+      let text := skipn (Z.to_nat vlen) rest in
+      match edit_of id v with
+      | None => [97]
+      | Some e =>
+          match obind (decode_beatmap dist_stub (lines_of_text text)) (fun m =>
+                encode_tokens dist_stub events_stub (apply_edit e m)) with
+          | Done toks => dump_toks toks
+          | Panic w => [1; w]
+          | OutOfFuel => [2]
+          end
+      end
+  | _ => [99]
+  end.
